@@ -135,7 +135,7 @@ def run(tier, seed):
             v.violation("unit analysis: the 2pi bookkeeping of %s is inconsistent with its declared weights" % q, {"function": q})
     D = Diff(sig)
     # ---- A: cells
-    n = 12 if tier == "quick" else 200
+    n = 40 if tier == "quick" else 400
     ms = [c02.draw_metric(rng) for _ in range(n)]
     hk = [[1, 0, 0], [0, 1, 1], [1, -2, 3], [-3, 1, 2], [2, 2, -1]]
     common.write_data_module(wd, "CellCases", {"Metrics": common.TlaSet(ms), "Hkls": common.TlaSet(hk)})
@@ -161,7 +161,7 @@ def run(tier, seed):
                 D.run("tth", [cell, h, lam], note=note)
     # ---- B: orientations
     pairs = []
-    for (p, q) in c02.AXIS[:8] + [c02.draw_rotation(rng, 4) for _ in range(12 if tier == "quick" else 300)]:
+    for (p, q) in c02.AXIS[:8] + [c02.draw_rotation(rng, 4) for _ in range(60 if tier == "quick" else 600)]:
         pairs.append([rng.choice(ms), p, q])
     common.write_data_module(wd, "OrientCases", {"Pairs": common.TlaSet(pairs), "Mats": common.TlaSet([[[1, 0, 0], [0, 1, 0], [0, 0, 1]]]),
                                                  "Hkls": common.TlaSet([[1, 0, 0]]), "IllMats": common.TlaSet([])})
@@ -201,7 +201,7 @@ def run(tier, seed):
     import c03
     A_ = c03.all_angles()
     S_ = c03.small_angles()
-    for _ in range(40 if tier == "quick" else 1500):
+    for _ in range(200 if tier == "quick" else 3000):
         a1, a2, a3 = rng.choice(A_), rng.choice(A_), rng.choice(A_)
         t1, t2 = rng.choice(S_), rng.choice(S_)
         D.run("euler_to_u", [c03.ang(a1, True), c03.ang(a2, True), c03.ang(a3, True)])
@@ -282,7 +282,7 @@ def run(tier, seed):
         else:
             D.run("find_omega_wedge", [gw, twoth, wedge], tol=1e-9, note=note)
     # ---- F: strain
-    sc = [c13.draw_case(rng) for _ in range(30 if tier == "quick" else 800)]
+    sc = [c13.draw_case(rng) for _ in range(80 if tier == "quick" else 1500)]
     common.write_data_module(wd, "StrainCases", {"Cases": common.TlaSet(sc)})
     rs = common.run_tlc("Strain", "MC_Strain.cfg", wd, timeout=900)
     states += rs.distinct
